@@ -314,7 +314,8 @@ def law_L7(rng: random.Random, out: Dict[str, Any]) -> None:
     which = rng.choice(['ok', 'ok', 'ok', 'redirect', 'seeother'])
     out['nontrivial'] = True
     if which == 'ok':
-        content = rng.choice([None, b'', G.body_bytes(rng, rng.choice([1, 19, 20, 21, 22, 300, 70000]))])
+        content = rng.choice([None, b'', G.body_bytes(rng, rng.choice([1, 19, 20, 21, 22, 300, 70000])),
+                              gzip.compress(G.body_bytes(rng, rng.choice([1, 30, 3000])), mtime=0)])
         mcl = rng.choice([0, 20, 20, 21, 1000])
         compress = rng.random() < 0.7
         headers = gen_headers(rng, rng.randint(0, 3), [b'content-length', b'content-encoding', b'connection', b'transfer-encoding']) or None
